@@ -307,3 +307,17 @@ mut("mirror-merge-advance-wrong-cursor", "C16", IDS, "            } else if b_en
 mut("mirror-merge-no-overlap-strict", "C16", IDS, "            if b_end <= a_cur {\n                push_coalesced(&mut result, b_cur..b_end, b[bi].1.clone());", "            if b_end < a_cur {\n                push_coalesced(&mut result, b_cur..b_end, b[bi].1.clone());", "C16.h")
 mut("mirror-benign-one-side-refactored", "C16", IDS, "                for i in ai..a.len() {\n                    push_coalesced(&mut result, a[i].0.clone(), a[i].1.clone());\n                }",
     "                for k in ai..a.len() {\n                    let e = &a[k];\n                    push_coalesced(&mut result, e.0.clone(), e.1.clone());\n                }", "", kind="benign", also=["C08"])
+mut("count-continue-before-first-write", "C13", S, "        for (client, clock) in diff {\n            let blocks = self.blocks.get_client(&client).unwrap();\n            let clock = clock.min(blocks.clock() + 1);",
+    "        for (client, clock) in diff {\n            if clock == 0 {\n                continue;\n            }\n            let blocks = self.blocks.get_client(&client).unwrap();\n            let clock = clock.min(blocks.clock() + 1);", "C13.d.count", also=["C06"])
+mut("stash-latest-compared-with-missing", "C02", U, "                            Some((latest_client, blocks)) if *latest_client == client => {", "                            Some((latest_client, blocks)) if latest_client == missing => {", "C02.b3", also=["C04"])
+mut("sv-hole-at-zero-not-lowered", "C06", BS, "            if let Some(clock) = ranges.clock_start() {\n                map.insert(*client, clock);\n            }", "            let clock = ranges.clock_start().unwrap_or_default();\n            if clock > 0 {\n                map.insert(*client, clock);\n            }", "C06.e", also=["C02", "C18"])
+mut("sv-hole-end-advertised", "C18", BS, "            if let Some(clock) = ranges.clock_start() {", "            if let Some(clock) = ranges.clock_end() {", "state-vector", also=["C06"])
+mut("known-state-ignores-holes", "C01", BS, "                if let Some(skips) = self.skips.get(client) {\n                    for (skip, _) in skips.iter() {", "                if let Some(skips) = self.skips.get(client) {\n                    for (skip, _) in skips.iter().take(1) {", "state-vector", kind="benign-skip")
+mut("known-state-hole-len-off", "C01", BS, "                            skip.end - skip.start,\n", "                            skip.end - skip.start - 1,\n", "state-vector", also=["C02"])
+mut("text-remove-skips-nested-types", "C03", "yrs/src/types/text.rs", "                ItemContent::Embed(_) | ItemContent::String(_) | ItemContent::Type(_) => {\n                    let content_len = item.content_len(encoding);\n                    let ptr = pos.right.unwrap();",
+    "                ItemContent::Embed(_) | ItemContent::String(_) => {\n                    let content_len = item.content_len(encoding);\n                    let ptr = pos.right.unwrap();", "text-units")
+mut("quote-string-skips-end-test-for-deleted", "C20", "yrs/src/types/weak.rs", "            if !item.is_deleted() {\n                if let ItemContent::String(s) = &item.content {\n                    result.push_str(s.as_str());\n                }\n            }\n            if let Some(end) = end {",
+    "            if item.is_deleted() {\n                curr = item.right;\n                continue;\n            }\n            if let ItemContent::String(s) = &item.content {\n                result.push_str(s.as_str());\n            }\n            if let Some(end) = end {", "C20.i")
+mut("quote-xml-embed-no-end-test", "C20", "yrs/src/types/text.rs", "                        if let Some(end) = end {\n                            if item.contains(end) {\n                                // we reached the end of range\n                                break 'LOOP;\n                            }\n                        }\n", "", "C20.j")
+mut("quote-xml-embed-before-start", "C20", "yrs/src/types/text.rs", "                        if start_offset >= 0 {\n                            self.pack_str();\n                            if let Some(value) = item.content.get_first() {", "                        if true {\n                            self.pack_str();\n                            if let Some(value) = item.content.get_first() {", "C20.j")
+mut("quote-xml-benign-started-flag-form", "C20", "yrs/src/types/text.rs", "                        if start_offset >= 0 {\n                            self.pack_str();\n                            if let Some(value) = item.content.get_first() {", "                        if !(start_offset < 0) {\n                            self.pack_str();\n                            if let Some(value) = item.content.get_first() {", "", kind="benign")
